@@ -81,3 +81,51 @@ package redisemu
 //@ modifies *
 //@ loop 1 invariant 0 <= count && count <= 64*ri1
 //@ ensures internal [C18] empty: valid == VALUE_EXISTS && len(strBytes) == 0 ==> output.data == respInt(0)
+
+// C18 / C13: SETBIT and BITFIELD hand the store well-formed sub-commands only
+// (width 1..64, unsigned at most 63, bit offset inside the 512MB limit, end
+// offset consistent), so the store never sizes a value by an unchecked offset.
+//@ func fnSetBit
+//@ prop C18
+//@ safetyprop C13
+//@ requires ctx != nil && ctx.dsc != nil && dscOK(ctx.dsc)
+//@ requires [C08,C16] unlocked: !held && lockMode(ctx.dsc)
+//@ requires !mutated && !bumped && !removedKey && !gApplied
+//@ modifies *
+//@ ensures [C18] offset.range: old(istype(args["offset"], int64) && (unbox(args["offset"], int64) < 0 || unbox(args["offset"], int64) >= 4294967296)) ==> istype(output.data, respErrorString) && !mutated
+
+//@ func parseBitfieldEncodingType
+//@ prop C18
+//@ safetyprop C13
+//@ modifies nothing
+//@ ensures [C18] width.range: width == 0 || (1 <= width && width <= 64 && (signed || width <= 63))
+
+//@ func parseBitfieldOffset
+//@ prop C18
+//@ safetyprop C13
+//@ requires 1 <= width && width <= 64
+//@ modifies nothing
+//@ ensures [C18] offset.range: valid ==> 0 <= offset && offset < 4294967296
+
+//@ func organizeBitfieldOp
+//@ prop C18
+//@ safetyprop C13
+//@ requires opType == BF_GET || opType == BF_SET || opType == BF_INCRBY
+//@ requires oflowChanges != nil
+//@ modifies alloc map
+//@ ensures [C18] op.wf: op != nil ==> bfOpWF(op)
+//@ ensures [C18] op.made: valid && tableKey == "" ==> op != nil
+
+//@ func fnBitfield
+//@ prop C18
+//@ safetyprop C13
+//@ requires ctx != nil && ctx.dsc != nil && dscOK(ctx.dsc)
+//@ requires [C08,C16] unlocked: !held && lockMode(ctx.dsc)
+//@ requires !mutated && !bumped && !removedKey && !gApplied
+//@ modifies *
+//@ loop 1 invariant [C18] ops.wf: allabs(i, 0, len(ops), bfOpWF(ops[i]))
+//@ loop 2 invariant [C18] ops.wf: allabs(i, 0, len(ops), bfOpWF(ops[i]))
+//@ loop 3 invariant [C18] ops.wf: allabs(i, 0, len(ops), bfOpWF(ops[i]))
+//@ loop 1 invariant !held && lockMode(ctx.dsc) && dscOK(ctx.dsc) && !mutated && !bumped && !removedKey && !gApplied
+//@ loop 2 invariant !held && lockMode(ctx.dsc) && dscOK(ctx.dsc) && !mutated && !bumped && !removedKey && !gApplied
+//@ loop 3 invariant !held && lockMode(ctx.dsc) && dscOK(ctx.dsc) && !mutated && !bumped && !removedKey && !gApplied
